@@ -89,24 +89,61 @@ def apply_site(kind, node, i):
     return None
 
 
-def mutants_of(src, func, rng, limit):
+def fragment_stmts(fn, fragment):
+    """the statement range a fragment contract covers (same search as pyvc.engine.fragment_body)"""
+    if not fragment:
+        return fn.body
+    start_pat, end_pat = fragment[0], fragment[1]
+    skip = [fragment[2] if len(fragment) > 2 else 0]
+
+    def find(stmts):
+        heads = [ast.unparse(s).split("\n")[0] for s in stmts]
+        for i, h in enumerate(heads):
+            if h.startswith(start_pat):
+                if skip[0] > 0:
+                    skip[0] -= 1
+                    continue
+                if isinstance(end_pat, int):
+                    return stmts[i:i + end_pat]
+                for j in range(i, len(heads)):
+                    if heads[j].startswith(end_pat):
+                        return stmts[i:j + 1]
+                return None
+        for s in stmts:
+            subs = [getattr(s, f, None) for f in ("body", "orelse", "finalbody")] + [h.body for h in getattr(s, "handlers", [])]
+            for sub in subs:
+                if isinstance(sub, list) and sub and isinstance(sub[0], ast.stmt):
+                    r = find(sub)
+                    if r is not None:
+                        return r
+        return None
+    return find(fn.body) or []
+
+
+def sites_of(src, func, fragment):
     tree = ast.parse(src)
     fn = find_function(tree, func)
     if fn is None:
-        return []
+        return tree, []
     sv = Sites()
-    for s in fn.body:
+    for s in fragment_stmts(fn, fragment):
         sv.visit(s)
+    return tree, sv.sites
+
+
+def mutants_of(src, func, rng, limit, fragment=None):
+    tree, sites = sites_of(src, func, fragment)
+
+    class _SV:
+        pass
+    sv = _SV()
+    sv.sites = sites
     idxs = list(range(len(sv.sites)))
     rng.shuffle(idxs)
     out = []
     for k in sorted(idxs[:limit]):
-        t2 = ast.parse(src)
-        f2 = find_function(t2, func)
-        s2 = Sites()
-        for s in f2.body:
-            s2.visit(s)
-        kind, node, i = s2.sites[k]
+        t2, sites2 = sites_of(src, func, fragment)
+        kind, node, i = sites2[k]
         line = getattr(node, "lineno", 0)
         before = ast.unparse(node)[:80]
         if kind in ("dropaug", "dropcall", "continue"):
@@ -140,32 +177,28 @@ def mutants_of(src, func, rng, limit):
     return out
 
 
-def main():
-    import argparse
-    ap = argparse.ArgumentParser()
-    ap.add_argument("pid")
-    ap.add_argument("--max", type=int, default=12)
-    ap.add_argument("--only", default=None)
-    ap.add_argument("--seed", type=int, default=0)
-    ap.add_argument("--out", default=None)
-    a = ap.parse_args()
+def probe(pid, max_per_fn=12, seed=0, only=None, repo=None, verbose=True, budget_s=None):
     from checks import plan as planmod
     from checks.deductive import verify_all
-    repo = os.environ.get("VERIF_REPO", "/repo")
-    plan = planmod.PLAN[a.pid]
-    rng = random.Random(a.seed)
+    import contracts
+    repo = repo or os.environ.get("VERIF_REPO", "/repo")
+    plan = planmod.PLAN[pid]
+    rng = random.Random(seed)
+    reg = contracts.build_registry()
     report = []
     t0 = time.time()
     for key in plan["functions"]:
         file, func = key
         if file.startswith("("):
             continue
-        if a.only and a.only not in func:
+        if only and only not in func:
             continue
+        if budget_s is not None and time.time() - t0 > budget_s:
+            break
         base = func.split("#")[0]
         src = open(os.path.join(repo, file)).read()
         # NOTE: the mutated source is the unparsed AST of the whole file (comments dropped): contracts anchor on unparsed statement text
-        muts = mutants_of(src, base, rng, a.max)
+        muts = mutants_of(src, base, rng, max_per_fn, reg.by_key[key].fragment)
         for m in muts:
             scratch = tempfile.mkdtemp(prefix="automut-")
             try:
@@ -181,14 +214,32 @@ def main():
                 bad = [r["name"].split("::", 1)[1] for r in o["results"] if r["status"] != "discharged"]
                 verdict, why = ("detected", ", ".join(bad[:2])) if bad else ("survived", "")
             report.append(dict(function=func, file=file, line=m["line"], before=m["before"], change=m["change"], verdict=verdict, detail=why))
-            print("%-9s %s:%s  %s  [%s]  %s" % (verdict, func, m["line"], m["before"], m["change"], why[:100]), flush=True)
+            if verbose:
+                print("%-9s %s:%s  %s  [%s]  %s" % (verdict, func, m["line"], m["before"], m["change"], why[:100]), flush=True)
     n = len(report)
     det = sum(1 for r in report if r["verdict"] == "detected")
     und = sum(1 for r in report if r["verdict"] == "undecided")
-    sur = n - det - und
-    print("SUMMARY %s: %d mutants, %d detected, %d undecided, %d survived, %.0fs" % (a.pid, n, det, und, sur, time.time() - t0))
+    return dict(property=pid, mutants=n, detected=det, undecided=und, survived=n - det - und, wall_s=round(time.time() - t0, 1),
+                survivors=[dict(function=r["function"], line=r["line"], before=r["before"], change=r["change"]) for r in report if r["verdict"] == "survived"],
+                note="syntactic mutants inside the statements under contract, re-verified by the deductive engine only (8 s per obligation): "
+                     "'detected' = some obligation no longer discharged, 'undecided' = anchor / construct no longer recognised, 'survived' = "
+                     "equivalent mutant or behaviour the contract does not pin down (often logging, or covered by another contract / the bounded engine)",
+                report=report)
+
+
+def main():
+    import argparse
+    ap = argparse.ArgumentParser()
+    ap.add_argument("pid")
+    ap.add_argument("--max", type=int, default=12)
+    ap.add_argument("--only", default=None)
+    ap.add_argument("--seed", type=int, default=0)
+    ap.add_argument("--out", default=None)
+    a = ap.parse_args()
+    res = probe(a.pid, a.max, a.seed, a.only)
+    print("SUMMARY %s: %d mutants, %d detected, %d undecided, %d survived, %.0fs" % (a.pid, res["mutants"], res["detected"], res["undecided"], res["survived"], res["wall_s"]))
     if a.out:
-        json.dump(dict(property=a.pid, mutants=n, detected=det, undecided=und, survived=sur, report=report), open(a.out, "w"), indent=1)
+        json.dump(res, open(a.out, "w"), indent=1)
 
 
 if __name__ == "__main__":
